@@ -67,11 +67,21 @@ def find_loop (repo, func):
   # BUF source: re-peeked each iteration?
   L.buf_defs = [(v, st) for t, v, st, k in q.stores_in(fn, nested=False) if norm(t) == L.buf]
   # DECODE: call whose args are (BUF, CUR or 0) and whose func is a subscript
-  L.decode = []
+  L.decode = []; L.decode_sub = {}
   for n in g.nodes:
     for c in q.node_calls(n):
-      if isinstance(c.func, ast.Subscript) and len(c.args) == 2 and norm(c.args[0]) == L.buf:
-        L.decode.append((n, c))
+      if len(c.args) == 2 and norm(c.args[0]) == L.buf:
+        if isinstance(c.func, ast.Subscript):
+          L.decode.append((n, c)); L.decode_sub[id(c)] = c.func
+        elif isinstance(c.func, ast.Name):
+          # a decoder fetched from the table earlier: every non-None origin of the local is a table lookup
+          subs = []
+          for d, kind, v in q.provenance(g, n, c.func.id):
+            if kind == 'assign' and isinstance(v, ast.Constant) and v.value is None: continue
+            if kind == 'assign' and isinstance(v, ast.Subscript): subs.append(v); continue
+            subs = None; break
+          if subs and len(set(norm(x) for x in subs)) == 1:
+            L.decode.append((n, c)); L.decode_sub[id(c)] = subs[0]
   # DELIVER: a call passing the decoded message object
   L.msgvar = None; L.newoff = None
   for n, c in L.decode:
